@@ -52,13 +52,13 @@ class C06(OptEngineBase):
     PROBES = [
         "fixed_isolated", "all_fixed", "none_fixed", "fixed_landmark", "unfix_between_calls",
         "first_vertex_not_min_id", "nan_outcome", "diverged_outcome", "singular_natural", "solver_raise_fired",
-        "i3_checked", "i3_skipped_illcond", "stdout_fail_fired", "multi_component", "singular_raised_as_error", "i3_trajectory_step",
+        "i3_checked", "i3_skipped_illcond", "stdout_fail_fired", "multi_component", "singular_raised_as_error", "i3_trajectory_step", "aliased_pose_objects",
     ]
 
     # ------------------------------------------------------------------ generate
     def generate(self, rng, tier, index):
         config = draw_config(rng)
-        workload, meta = graphs.gen_opt_workload(rng, {"self_loops": False})
+        workload, meta = graphs.gen_opt_workload(rng, {"self_loops": False, "alias_poses": 0.12})
         verts = workload["vertices"]
         ids = [v["id"] for v in verts]
         comps = graphs.components(workload)
@@ -135,6 +135,8 @@ class C06(OptEngineBase):
                     res.probe("multi_component")
                 if verts and verts[0].id != min(v.id for v in verts):
                     res.probe("first_vertex_not_min_id")
+                if meta.get("aliased_pose"):
+                    res.probe("aliased_pose_objects")
             optimized_before = False
             for i, op in enumerate(ops):
                 w.begin_op(i)
